@@ -277,6 +277,42 @@ func TestVerifC20(t *testing.T) {
 			r.Violation(fmt.Sprintf("fetch stream has extra entries filter=%s", vlib.JSON(f)), c20Case{Filter: f, Via: "fetch"}, fmt.Sprint(err))
 		}
 	})
+	// ---- request sizes: the projection does not depend on how many IDs one request carries (1, 2, all) ----
+	if !replay {
+		for fi, f := range filters {
+			if f.None {
+				continue
+			}
+			for k := 0; k < 6; k++ {
+				di := (fi*7 + k*len(rdocs)/6) % len(rdocs)
+				for _, n := range []int{1, 2} {
+					req := &pb.FetchRequest{FieldsFilter: &pb.FetchRequest_FieldsFilter{Fields: f.Fields, AllowList: f.Allow}}
+					var idx []int
+					for j := 0; j < n; j++ {
+						idx = append(idx, (di+j)%len(rdocs))
+						req.Ids = append(req.Ids, ids[(di+j)%len(rdocs)])
+					}
+					stream, err := client.Fetch(context.Background(), req)
+					if err != nil {
+						r.Violation(fmt.Sprintf("fetch error filter=%s ids=%d", vlib.JSON(f), n), c20Case{Filter: f, Via: "fetch"}, err.Error())
+						continue
+					}
+					for _, i := range idx {
+						m, err := stream.Recv()
+						if err != nil {
+							r.Violation(fmt.Sprintf("fetch stream ended early filter=%s ids=%d", vlib.JSON(f), n), c20Case{Doc: docs[i], Filter: f, Via: "fetch"}, fmt.Sprint(err))
+							break
+						}
+						r.Add("evaluations", 1)
+						r.Add("small_request_evaluations", 1)
+						if v := c20Check(rdocs[i].Body, disk.DocBlock(m.Data).Payload(), f); v != "" {
+							r.Violation(fmt.Sprintf("fetch of %d id(s) filter=%s doc=%s", n, vlib.JSON(f), rdocs[i].Body), c20Case{Doc: docs[i], Filter: f, Via: "fetch"}, fmt.Sprintf("stored %s\n%s", rdocs[i].Body, v))
+						}
+					}
+				}
+			}
+		}
+	}
 	// ---- request sequences: the answer does not depend on the request served before (pooled filter state).
 	// Every ordered pair over a reduced filter set that includes long lists, sequentially on one goroutine.
 	long9 := []string{"a", "b", "a.b", "zz", "é", "", `q"\k`, "y1", "y2"}
@@ -410,7 +446,7 @@ func TestVerifC20(t *testing.T) {
 	r.Sample(c20Case{Doc: docs[len(docs)/2], Filter: filters[len(filters)/2], Via: "fetch"})
 	ev := r.Get("evaluations")
 	r.Finish(t, "model_checking",
-		fmt.Sprintf("%d stored JSON objects from the grammar names{a,b,a.b,é,\"\",a spelled \\u0061,é spelled \\u00e9,q\"\\k} x values{1,-0.5e3,\"s\",escaped string,\"é\",true,null,{},{\"x\":1},[1,{\"y\":2}],\"\"} with 0..3 fields (all 1- and 2-field name sequences, 3-field ones thinned in quick), with and without insignificant whitespace; %d field filters = every list of <=3 names over {a,b,a.b,zz} incl. repeats in allow and except mode, no filter, and lists with é / empty name / a name with quote and backslash; every (document, filter) through the streaming GrpcV1.Fetch of an in-process store; every ordered pair of requests over 10 filters incl. lists of 9 and 12 names, sequentially (the answer must not depend on the request served before); every filter (quick: every 5th) again through search.Ingestor.Search with a fields pipe (ID sequence must equal the un-piped search). Oracle: output is a JSON object with exactly the expected key set, every kept value JSON-equal (numbers numerically), no filter => identical bytes", len(docs), len(filters)),
+		fmt.Sprintf("%d stored JSON objects from the grammar names{a,b,a.b,é,\"\",a spelled \\u0061,é spelled \\u00e9,q\"\\k} x values{1,-0.5e3,\"s\",escaped string,\"é\",true,null,{},{\"x\":1},[1,{\"y\":2}],\"\"} with 0..3 fields (all 1- and 2-field name sequences, 3-field ones thinned in quick), with and without insignificant whitespace; %d field filters = every list of <=3 names over {a,b,a.b,zz} incl. repeats in allow and except mode, no filter, and lists with é / empty name / a name with quote and backslash; every (document, filter) through the streaming GrpcV1.Fetch of an in-process store; every filter again with requests of 1 and 2 IDs (6 documents each); every ordered pair of requests over 10 filters incl. lists of 9 and 12 names, sequentially (the answer must not depend on the request served before); every filter (quick: every 5th) again through search.Ingestor.Search with a fields pipe (ID sequence must equal the un-piped search). Oracle: output is a JSON object with exactly the expected key set, every kept value JSON-equal (numbers numerically), no filter => identical bytes", len(docs), len(filters)),
 		map[string]any{
 			"states":                        len(docs) * len(filters),
 			"transitions":                   ev,
